@@ -5,7 +5,9 @@
 (* after every call the harness logs what ByAddr answers for every address,  *)
 (* ByName for every id (it checks itself that all spellings answer alike and *)
 (* logs same = FALSE otherwise), what RangeNames / RangeAddrs visited and    *)
-(* Equal between the two storages.                                           *)
+(* Equal between the two storages.  Every record is built in one reused      *)
+(* names buffer that the harness overwrites after each Add (rec_ok), and     *)
+(* result slices kept from earlier queries are re-read (kept_ok).            *)
 EXTENDS HostsStorage, Json
 
 TraceNames == (1..12) \X (0..3)
@@ -48,6 +50,8 @@ TNext == /\ l <= Len(Trace)
          /\ ObsOK(Trace[l].o2, st2')
          /\ EqOK(Trace[l].eq12, Equal3(st', st2'))
          /\ EqOK(Trace[l].eq21, Equal3(st2', st'))
+         /\ Trace[l].rec_ok     \* Add left the record and the caller's names buffer alone (HostsStorageMem)
+         /\ Trace[l].kept_ok    \* no element of an earlier result slice changed (AppendOnly)
          /\ ImplRefines'
 TSpec == TInit /\ [][TNext]_tvars
 =============================================================================
